@@ -216,7 +216,8 @@ class ReconWorld:
         # close()/shutdown() end the life of the pairing in these histories (the statements treat close as final): afterwards only
         # time, peer-side drops, further closes and - after shutdown - discovery updates (which must not wake anything) are applied.
         closed_kinds = {k for _, k, _, _ in tr.closes}
-        if closed_kinds and name in ("call", "open", "sub", "soon") or ("close" in closed_kinds and "shutdown" not in closed_kinds and name == "zc"):
+        reuse = bool(self.case.get("reuse")) and "shutdown" not in closed_kinds      # (C11 only) the pairing is used again after close()
+        if not reuse and (closed_kinds and name in ("call", "open", "sub", "soon") or ("close" in closed_kinds and "shutdown" not in closed_kinds and name == "zc")):
             tr.ops.append((t0, list(op), "skipped-after-close"))
             self.observe()
             return
